@@ -33,7 +33,8 @@ def shape_blog(cfg):
             o.update(extra or {})
             return {'__versioned__': o}
 
-        excl = ['x'] + (['notes'] if cfg.get('excl_notes') else [])
+        # excl_labels: the many-to-many relationship is excluded on both of its sides: no association version table
+        excl = ['x'] + (['notes'] if cfg.get('excl_notes') else []) + (['labels'] if cfg.get('excl_labels') else [])
         if cfg.get('mgr_excl'):
             art_extra = {}
         elif cfg.get('include_x'):
@@ -62,7 +63,7 @@ def shape_blog(cfg):
             __tablename__='label',
             id=sa.Column(sa.Integer, primary_key=True, autoincrement=False),
             a=sa.Column(sa.Integer),
-            **vopts()))
+            **vopts({'exclude': ['articles']} if cfg.get('excl_labels') else None)))
         article_label = sa.Table(
             'article_label', Base.metadata,
             sa.Column('article_id', sa.Integer, sa.ForeignKey('article.id'), primary_key=True),
@@ -509,6 +510,20 @@ class Recorder(object):
             else:
                 self.nonver_keys.append([k for k in self.colkeys[ci] if effective_excluded(env, cls, k)])
         self.assoc_idx = {t: i for i, t in enumerate(env.assoc)}
+        # an association table is versioned - by CONFIGURATION, not by looking whether the package built a version
+        # table for it - when some relationship that uses it belongs to a versioned class, points at a versioned
+        # class, is not view-only and is not excluded for its class; statements on other association tables are no
+        # events for the model (an excluded relationship has no counterpart in the version schema)
+        self.assoc_versioned = set()
+        for ci, cls in enumerate(env.classes):
+            if not (env.versioned and hasattr(cls, '__versioned__')):
+                continue
+            for rk, r in sa.inspect(cls).relationships.items():
+                if r.secondary is not None and r.secondary in self.assoc_idx and not r.viewonly \
+                        and hasattr(r.mapper.class_, '__versioned__') and not effective_excluded(env, cls, rk):
+                    self.assoc_versioned.add(self.assoc_idx[r.secondary])
+        if not env.versioned:
+            self.assoc_versioned = set(range(len(env.assoc)))
         # table handles are resolved once: they must survive remove_versioning()
         self.vtabs = {}
         if env.versioned:
@@ -612,7 +627,7 @@ class Recorder(object):
             return
         if self.cur is None:
             tbl = getattr(clauseelement, 'table', None)
-            if tbl is not None and tbl in self.assoc_idx and (
+            if tbl is not None and tbl in self.assoc_idx and self.assoc_idx[tbl] in self.assoc_versioned and (
                     getattr(clauseelement, 'is_insert', False) or getattr(clauseelement, 'is_delete', False)):
                 op = 0 if clauseelement.is_insert else 2
                 mp = multiparams if multiparams else [params]
@@ -630,7 +645,7 @@ class Recorder(object):
                                                      key=[vals[c.name] for c in tbl.c], op=op))
             return
         tbl = getattr(clauseelement, 'table', None)
-        if tbl is None or tbl not in self.assoc_idx:
+        if tbl is None or tbl not in self.assoc_idx or self.assoc_idx[tbl] not in self.assoc_versioned:
             return
         if clauseelement.is_insert:
             op = 0
@@ -762,8 +777,10 @@ class Recorder(object):
             if ai in self.avtabs:
                 vtb, atxc = self.avtabs[ai]
                 for row in conn.execute(sa.select(vtb)).mappings():
-                    av.append(dict(tab=ai, key=[row[c.name] for c in tbl.c], tx=row[atxc],
-                                   op=row['operation_type']))
+                    # rows of an association version table that must not exist (the relationship is excluded by
+                    # configuration) are reported under table id 100 + i
+                    av.append(dict(tab=ai if ai in self.assoc_versioned else 100 + ai,
+                                   key=[row[c.name] for c in tbl.c], tx=row[atxc], op=row['operation_type']))
         alive = []
         for ai, tbl in enumerate(env.assoc):
             for row in conn.execute(sa.select(tbl)).mappings():
@@ -857,9 +874,12 @@ def run_program(env, cfg, prog, record=True, plain=False, fault=None, emulate_ac
     refs = {}
     outcomes = []
     kept_activities = []
+    kept_tx = {}
     added_tx = set()
     conn_rolled_back = False
     classes = env.classes
+
+    gone = {}
 
     def lookup(c, key):
         rk = (c, json.dumps(key))
@@ -937,6 +957,7 @@ def run_program(env, cfg, prog, record=True, plain=False, fault=None, emulate_ac
                         continue
                     s.delete(o)
                     refs.pop((c, json.dumps(key)), None)
+                    gone[(c, json.dumps(key))] = o          # the application may keep the reference (activities)
                     added_tx.discard((c, json.dumps(key)))
                 elif kind == 'delbase':
                     # ['delbase', cls, key]: the object is loaded through the base class of its hierarchy (the columns
@@ -1032,8 +1053,8 @@ def run_program(env, cfg, prog, record=True, plain=False, fault=None, emulate_ac
                 elif kind == 'activity':
                     # ['activity', verb, [cls, key], [cls, key] | None]; the application keeps the reference
                     Act = env.manager.activity_cls
-                    o = lookup(op[2][0], op[2][1])
-                    t = lookup(op[3][0], op[3][1]) if op[3] else None
+                    o = lookup(op[2][0], op[2][1]) or gone.get((op[2][0], json.dumps(op[2][1])))
+                    t = (lookup(op[3][0], op[3][1]) or gone.get((op[3][0], json.dumps(op[3][1])))) if op[3] else None
                     if o is None or (op[3] and t is None):
                         outcomes.append('skip')
                         continue
@@ -1110,6 +1131,18 @@ def run_program(env, cfg, prog, record=True, plain=False, fault=None, emulate_ac
                     s.flush()
                 elif kind == 'query':
                     s.query(classes[op[1]]).all()
+                elif kind == 'readnames':
+                    # the application looks at the record of the running transaction (entity_names / changed_entities)
+                    # between two flushes and keeps the object
+                    if env.versioned and not plain:
+                        uow_ = env.manager.units_of_work.get(s.connection())
+                        tx_ = getattr(uow_, 'current_transaction', None) if uow_ is not None else None
+                        if tx_ is not None and tx_.id is not None:
+                            try:
+                                list(tx_.entity_names)
+                            except Exception:
+                                pass
+                            kept_tx[tx_.id] = tx_
                 elif kind == 'commit':
                     s.commit()
                     added_tx.clear()
@@ -1165,6 +1198,8 @@ def run_program(env, cfg, prog, record=True, plain=False, fault=None, emulate_ac
                 Tx = env.manager.transaction_cls
                 vmap = {env.version_class(c): i for i, c in enumerate(classes) if hasattr(c, '__versioned__')}
                 for tx in s2.query(Tx).order_by(Tx.id).all():
+                    if tx.id in kept_tx and sa.orm.object_session(kept_tx[tx.id]) is not None:
+                        tx = kept_tx[tx.id]          # the record object the application looked at earlier and still holds
                     for vcls, objs in tx.changed_entities.items():
                         if vcls in vmap:
                             m = sa.inspect(classes[vmap[vcls]])
